@@ -296,6 +296,8 @@ class Data(object):
         if axis == verif.axis.All():
             I = np.where(valid == 0)
             for i in range(0, len(fields)):
+                # Do not mask the cached array itself (it is shared with earlier and later requests)
+                scores[i] = scores[i].copy()
                 scores[i][I[0], I[1], I[2]] = np.nan
         else:
             I = np.where(valid)
